@@ -173,10 +173,10 @@ Proof.
     + apply call_done_noprec.
   - (* ORelease *)
     destruct (relflag c).
-    + inv_some Hs. apply (inv_frame0 c _ t th (finish th ORet)); simpl; auto; try solve [noprec0].
+    + inv_some Hs. apply (inv_frame0 c _ t th (finish th ONoop)); simpl; auto; try solve [noprec0].
       unfold tinv. simpl. rewrite Hop. exact I.
     + destruct (0 <? crefs c - 1); inv_some Hs.
-      * apply (inv_frame c _ t th (finish th ORet)); simpl; auto; try solve [noprec0]; try useHI HI.
+      * apply (inv_frame c _ t th (finish th ONoop)); simpl; auto; try solve [noprec0]; try useHI HI.
         -- intros Hc. congruence.
         -- apply px_preserved_refl. reflexivity.
         -- unfold tinv. simpl. rewrite Hop. exact I.
